@@ -34,7 +34,7 @@ TrBytes  == IsEvent("bytes") /\ LET e == Rec[l] IN Bytes(e.o, e.in, e.b2b, e.jun
 TrOne    == IsEvent("oneshot") /\ LET e == Rec[l] IN OneShot(e.o, e.how, e.in, e.b2b, e.junk, e.res, e.out, e.outlen)
 TrSeek   == IsEvent("seek") /\ LET e == Rec[l] IN Seek(e.o, e.t, e.p, e.res)
 TrPos    == IsEvent("pos") /\ LET e == Rec[l] IN Pos(e.o, e.t, e.res, e.v)
-TrRem    == IsEvent("rem") /\ LET e == Rec[l] IN Rem(e.o, e.some, e.v, e.res)
+TrRem    == IsEvent("rem") /\ LET e == Rec[l] IN Rem(e.o, e.some, e.v, e.hasbpos, e.bpos, e.res)
 TrSetB   == IsEvent("setbpos") /\ LET e == Rec[l] IN SetBpos(e.o, e.v, e.res)
 TrExport == IsEvent("export") /\ LET e == Rec[l] IN Export(e.o, e.v, e.pos, e.res)
 TrClone  == IsEvent("clone") /\ LET e == Rec[l] IN Clone(e.o, e.from, e.res)
